@@ -113,11 +113,18 @@ let run_bitmap args ops =
   let s = ref (binit (nat_of_int nb)) in
   let b = Buffer.create 256 in
   let stop = ref false in
+  let dirty = ref false in   (* iterated bitmap written since iinit: inext becomes bookkeeping (#x) *)
+  let writes = function
+    | BSet (d, _) | BClr (d, _) | BSetR (d, _, _) | BClrR (d, _, _) | BClear d | BExpand (d, _) | BCopy (d, _)
+    | BAnd (d, _, _) | BAndC (d, _, _) | BIor (d, _, _) | BIorAnd (d, _, _, _) | BIorAndC (d, _, _, _) -> Some d
+    | _ -> None in
   List.iter (fun o ->
     if not !stop then
     match parse_bop o with
     | None -> ()
     | Some o ->
+      (match writes o with Some d when d = !s.bit_bm -> dirty := true | _ -> ());
+      (match o with BIterInit _ -> dirty := false | _ -> ());
       (match bstep true !s o with
        | None -> Buffer.add_string b " REJECT"; stop := true
        | Some (s', out) ->
@@ -128,8 +135,8 @@ let run_bitmap args ops =
           | BoNum n -> Buffer.add_string b (" n" ^ dec_of_n n)
           | BoList [] -> Buffer.add_string b " i-"
           | BoList l -> Buffer.add_string b (" i" ^ String.concat "," (List.map dec_of_n l))
-          | BoNext None -> Buffer.add_string b " x-"
-          | BoNext (Some n) -> Buffer.add_string b (" x" ^ dec_of_n n));
+          | BoNext None -> Buffer.add_string b (if !dirty then " #x-" else " x-")
+          | BoNext (Some n) -> Buffer.add_string b ((if !dirty then " #x" else " x") ^ dec_of_n n));
          dump_store b !s.bst))
     (String.split_on_char ';' ops);
   print_endline (Buffer.contents b)
@@ -193,7 +200,10 @@ let run_htab args ops =
             Buffer.add_string b (match r with None -> " e-" | Some x -> " e" ^ string_of_int (int_of_n x))
           | HoNone -> Buffer.add_string b " -"
           | HoNat n -> Buffer.add_string b (" n" ^ string_of_int (int_of_nat n))
-          | HoList l -> Buffer.add_string b (show_ints "l" (List.map int_of_n l))
+          | HoList l ->
+            let l = List.map int_of_n l in
+            Buffer.add_string b (show_ints "l" (List.sort compare l));
+            Buffer.add_string b (show_ints "#l" l)
           | HoN n -> Buffer.add_string b (" #c" ^ string_of_int (int_of_n n)));
          let rec drop n l = if n = 0 then l else match l with [] -> [] | _ :: r -> drop (n - 1) r in
          let fr = List.map int_of_n (drop nlog h'.flog) in
